@@ -47,6 +47,7 @@ REQUIRED = [
     "parse_error_then_valid",
     "timeouts_thrown",
     "client_closed_by_handler",
+    "generator_ended_right_after_closing_the_client",
     "disconnect_mid_frame",
     "on_connection_generator",
     "requests_checked",
@@ -94,6 +95,7 @@ def gen_params(rng: random.Random) -> dict:
         "on_timeout": rng.choice(["continue", "stop"]),
         "on_connection": rng.choice(["coro", "coro", "gen0", "gen1", "gen2"]),
         "close_at": rng.choice([None, None, None, 1, 2, 4]),
+        "after_close": rng.choice(["continue", "return"]),  # keep waiting for requests on the closed client, or end the generator
         "echo": rng.random() < 0.5,
         "delays": [rng.choice([0, 0, -1, 0.25, 1.0, 3.0]) for _ in range(12)],
         "cut_seed": rng.getrandbits(30),
@@ -183,6 +185,9 @@ def run_conn(p: dict) -> dict:
                         state["closed_by_handler"] = True
                         log.append(("handler-closes", now()))
                         await client.aclose()
+                        if p.get("after_close") == "return":
+                            log.append(("gen-return", gid, kind))
+                            return
                 log.append(("gen-return", gid, kind))
             finally:
                 state["open_gens"] -= 1
@@ -300,6 +305,12 @@ def decide(p: dict, res: dict, ctx=None) -> str | None:
         later = [e for e in log[close_i + 1 :] if e[0] in ("req", "err")]
         if later:
             return f"{len(later)} requests delivered after the handler closed the client"
+        # nor is a new handler generator started on the closed client
+        started = [e for e in log[close_i + 1 :] if e[0] == "gen-start"]
+        if started:
+            return f"a new handler generator ({started[0][2]} #{started[0][1]}) was started after the handler had closed the client"
+        if ctx is not None and p.get("after_close") == "return" and p["level"] == "high":
+            ctx.count("generator_ended_right_after_closing_the_client")
     # (3) everything complete is delivered unless the handler stopped / closed / timed out and stopped
     stopped_early = close_i is not None or (p["on_timeout"] == "stop" and any(e[0] == "timeout" for e in log) and p["level"] == "low") or False
     if p["level"] == "high" and p["on_timeout"] == "stop":
